@@ -421,6 +421,9 @@ package minersc
 //@   at-call updateGroupShareOrSigns assert[sender-takes-part] t.ClientID in dmn.SimpleNodes
 //@   at-call updateGroupShareOrSigns assert[enough-entries] len(sos.ShareOrSigns) >= dmn.K - 1
 //@   at-call updateGroupShareOrSigns assert[content-validated] ok
+// the content is validated as the SENDER's message (revealed shares are checked against the public key
+// contributed under the message's id) and the sender has contributed a key
+//@   at-call Validate assert[validated-as-the-senders-message] $arg0 == sos && sos.ID == t.ClientID && $arg1 == mpks && (t.ClientID in mpks.Mpks)
 //@ func (*MinerSmartContract).wait
 //@   prop C38
 //@   requires msc != nil && t != nil && balances != nil
